@@ -31,6 +31,28 @@ SPECS = [
         serves=['C13'],
     ),
     dict(
+        id='S-OnError-omit-expr',
+        # tal:on-error on an element whose tag is subject to a tal:omit-tag EXPRESSION.  The property
+        # does not say whether the fallback keeps the tag in that case (the tree emits the bare
+        # fallback); what it does decide: the element's output is replaced as a whole -- the fallback
+        # comes with BOTH its tags or with neither, before and after are untouched -- and the omit
+        # expression, like every expression, is evaluated once per reach (never again by the handler)
+        text='A<p class="c" tal:omit-tag="e8" tal:on-error="e11">%s</p>B' % H1,
+        own_names=['error'],
+        ensures=[
+            "evals(8) <= 1",
+            "raised('h1') or raised('e8') or evals(11) == 0",
+            "not (raised('h1') or raised('e8')) or (evals(11) == 1 and ("
+            "S() == S0() + 'A' + ('' if quoted(val(11), None, '\\xad', None, None) is None else piece(quoted(val(11), None, '\\xad', None, None))) + 'B' or S() == S0() + 'A<p class=\"c\">' + ('' if quoted(val(11), None, '\\xad', None, None) is None else piece(quoted(val(11), None, '\\xad', None, None))) + '</p>B'))",
+            "not (raised('h1') or raised('e8')) or handler_calls() == (1 if handler_configured() else 0)",
+        ],
+        raises={'*': {'ensures': [
+            "evals(8) <= 1",
+            "((raised('h1') or raised('e8')) and not exc_is_exception()) or raised('e11')",
+        ]}},
+        serves=['C13', 'C04'],
+    ),
+    dict(
         id='S-OnError-static-body',
         # the guarded element evaluates nothing itself: the failure comes from behind a call (an
         # in-template macro).  It is guarded all the same.
